@@ -26,9 +26,9 @@ NCORES, NGPUS = 3, 2
 CONSTANTS = 'NCores = %d\n NGpus = %d\n' % (NCORES, NGPUS)
 
 INVARIANTS = ['TypeOK', 'InvNoShare', 'InvDemandMet', 'InvOccMatches', 'InvAllBack',
-              'InvResultOnce', 'InvTarget', 'InvRouting', 'InvRestored']
+              'InvResultOnce', 'InvTarget', 'InvTruth', 'InvRouting', 'InvRestored']
 DEVS = ['DevNoDeallocOnSpawnFail', 'DevAllocIgnoresBusy', 'DevPutOutsideLock',
-        'DevDupKillsWatcher', 'DevTargetIgnoresMissing', 'DevNoSeen', 'DevEnvLeak']
+        'DevDupKillsWatcher', 'DevNoSynthWithoutTimeout', 'DevTargetIgnoresMissing', 'DevNoSeen', 'DevEnvLeak']
 
 Q = R.req
 
@@ -36,9 +36,9 @@ Q = R.req
 SCENARIOS = [
     ('mixed', {'r1': Q(2, 1, 'func', 'ret', tmo=1),    'r2': Q(2, 0, 'eval', 'raise', sf=1),
                'r3': Q(1, 2, 'exe'),                    'r4': Q(3, 1, 'shell', 'print', tmo=1)}),
-    ('full',  {'r1': Q(3, 2, 'func', 'setenv', tmo=1), 'r2': Q(1, 1, 'exec', 'delenv'),
+    ('full',  {'r1': Q(3, 2, 'func', 'setenv', tmo=1), 'r2': Q(1, 1, 'exec', 'die'),
                'r3': Q(2, 1, 'proc', 'raise', tmo=1, sf=1), 'r4': Q(1, 0, 'func', 'coro')}),
-    ('gpus',  {'r1': Q(1, 2, 'eval', 'tenv'),          'r2': Q(1, 1, 'func', 'swapout', tmo=1),
+    ('gpus',  {'r1': Q(1, 2, 'eval', 'die'),           'r2': Q(1, 1, 'func', 'die', tmo=1),
                'r3': Q(1, 1, 'exec', 'print', sf=1),   'r4': Q(1, 1, 'exe')}),
     ('allfn', {'r1': Q(2, 1, 'exec', 'ret', tmo=1, sf=1), 'r2': Q(2, 2, 'func', 'print', tmo=1),
                'r3': Q(1, 0, 'shell', 'tenv', tmo=1, sf=1), 'r4': Q(3, 0, 'eval', 'setenv', tmo=1)}),
@@ -48,12 +48,14 @@ CLS_BASE    = 'request stream'
 CLS_ENV     = 'python payload changes os.environ (dispatcher rebinds os.environ instead of restoring it)'
 CLS_SCHED   = 'scheduler hand-off'
 CLS_MPI     = 'MPI worker request stream'
+CLS_MPISEND = 'MPI worker: sending a request to its ranks fails after the ranks were allocated'
 CLS_MPISIG  = 'MPI worker: a rank is killed by a signal (rank exit code below zero)'
 
 NRANKS = 3
-MPI_INVARIANTS = ['TypeOK', 'InvNoShare', 'InvDemandMet', 'InvOccMatches', 'InvAllBack',
+MPI_INVARIANTS = ['TypeOK', 'InvNoShare', 'InvDemandMet', 'InvRefused', 'InvOccMatches', 'InvAllBack',
                   'InvResultOnce', 'InvAgg', 'InvTarget', 'InvEvt']
-MPI_DEVS = ['DevAggMin', 'DevAggSignedMax', 'DevAllocBusy', 'DevNoDealloc']
+MPI_DEVS = ['DevAggMin', 'DevAggSignedMax', 'DevAllocBusy', 'DevNoDealloc',
+            'DevNoDeallocOnSendFail', 'DevMissingIsDone']
 # (ranks, mode, possible rank outcomes)
 MPI_SCENARIOS = [
     ('three', {'r1': (2, 'func', ['ok', 'raise']), 'r2': (3, 'eval', ['ok', 'raise']),
@@ -61,6 +63,13 @@ MPI_SCENARIOS = [
     ('four',  {'r1': (2, 'shell', ['ok', 'raise']), 'r2': (3, 'func', ['ok', 'raise']),
                'r3': (1, 'eval', ['ok', 'raise']), 'r4': (2, 'func', ['ok', 'raise'])}),
 ]
+# a request asking for more ranks than the worker has; a request whose send fails
+MPI_REFUSE = ('refuse', {'r1': (4, 'func', ['ok']), 'r2': (2, 'eval', ['ok', 'raise']),
+                         'r3': (1, 'shell', ['ok', 'raise'])})
+MPI_SEND   = ('sendfail', {'r1': (2, 'func', ['ok'], True), 'r2': (3, 'eval', ['ok', 'raise']),
+                           'r3': (1, 'func', ['ok', 'raise'])})
+MPI_LIGHT = ('three-light', {'r1': (2, 'func', ['ok', 'raise']), 'r2': (3, 'eval', ['ok']),
+                             'r3': (1, 'shell', ['ok', 'raise'])})
 MPI_SIG = ('sig', {'r1': (2, 'shell', ['ok', 'sig']), 'r2': (3, 'shell', ['ok', 'raise', 'sig'])})
 
 
@@ -100,9 +109,11 @@ def mpi_files(scen, devs=(), invariants=None):
     mod = ('---- MODULE MCM ----\nEXTENDS RaptorMPI\n'
            'MCReqs == {%s}\n' % ', '.join('"%s"' % u for u in ids)
            + 'MCNeed == [r \\in MCReqs |-> CASE %s]\n' % case(lambda q: str(q[0]))
-           + 'MCOuts == [r \\in MCReqs |-> CASE %s]\n====\n'
-           % case(lambda q: '{' + ', '.join('"%s"' % o for o in q[2]) + '}'))
-    cfg = ('CONSTANTS\n NRanks = %d\n Reqs <- MCReqs\n Need <- MCNeed\n Outs <- MCOuts\n' % NRANKS)
+           + 'MCOuts == [r \\in MCReqs |-> CASE %s]\n'
+           % case(lambda q: '{' + ', '.join('"%s"' % o for o in q[2]) + '}')
+           + 'MCSend == {%s}\n====\n' % ', '.join('"%s"' % u for u in ids if len(scen[u]) > 3 and scen[u][3]))
+    cfg = ('CONSTANTS\n NRanks = %d\n Reqs <- MCReqs\n Need <- MCNeed\n Outs <- MCOuts\n'
+           ' SendFails <- MCSend\n' % NRANKS)
     for d in MPI_DEVS:
         cfg += ' %s = %s\n' % (d, 'TRUE' if d in devs else 'FALSE')
     cfg += 'SPECIFICATION Spec\n'
@@ -117,10 +128,12 @@ def mpi_from_behaviour(path, scen):
     steps = tlc.parse_sim_file(path)
     oc    = steps[0][2]['oc']
     reqs  = {}
-    for u, (n, mode, outs) in scen.items():
+    for u, sc in scen.items():
+        n, mode = sc[0], sc[1]
         v  = oc[u]
-        rk = [v[i] for i in range(n)] if isinstance(v, dict) else list(v)[:n]
-        reqs[u] = R.mpi_req(n, mode, rk)
+        rk = [(v[i] if isinstance(v, dict) else list(v)[i]) if i < NRANKS else 'ok'
+              for i in range(n)]
+        reqs[u] = R.mpi_req(n, mode, rk, pf=0 if (len(sc) > 3 and sc[3]) else -1)
     script = []
     for name, args, _ in steps:
         ids = re.findall(r'"(\w+)"', args or '')
@@ -132,7 +145,10 @@ def mpi_from_behaviour(path, scen):
     return reqs, script
 
 
-def random_mpi(rng, sig):
+def random_mpi(rng, sig, sendfail=False):
+    '''sig: one request has a rank killed by a signal; sendfail: sending one
+       request to its ranks fails; otherwise now and then a request asks for more
+       ranks than the worker has'''
     reqs = {}
     for i in range(rng.randint(2, 5)):
         n    = rng.randint(1, NRANKS)
@@ -144,7 +160,12 @@ def random_mpi(rng, sig):
             rk = [rng.choice(['ok', 'ok', 'raise']) for _ in range(n)]
             j  = rng.randrange(n)
             rk[j], rk[(j + 1) % n] = 'sig', 'ok'
+        if not sig and not sendfail and rng.random() < 0.15:
+            n, rk = NRANKS + rng.randint(1, 2), None
         reqs['r%d' % (i + 1)] = R.mpi_req(n, mode, rk)
+    if sendfail:
+        u = rng.choice(sorted(reqs))
+        reqs[u]['pf'] = rng.randrange(reqs[u]['c'])
     return reqs
 
 
@@ -249,6 +270,7 @@ def classify(inp, clause):
     if fam == 'sched'  : return CLS_SCHED
     if fam == 'mpi'    : return CLS_MPI
     if fam == 'mpi-sig': return CLS_MPISIG
+    if fam == 'mpi-sendfail': return CLS_MPISEND
     return CLS_BASE
 
 
@@ -322,14 +344,18 @@ def run(chk, tier, seed):
     quick = tier == 'quick'
 
     # ---- 1. design models, exhaustive -----------------------------------------------
-    for name, reqs in ([SCENARIOS[0], SCENARIOS[2]] if quick else SCENARIOS):
+    # quick: the same scenarios with one racing dispatch pair / fewer rank outcomes
+    light = dict(SCENARIOS[0][1])
+    light['r4'] = dict(light['r4'], tmo=False)
+    for name, reqs in ([('mixed-light', light), SCENARIOS[2]] if quick else SCENARIOS):
         res = tlc.run('Raptor', 'MC', 'MC.cfg', workers=8, timeout=900,
                       extra_files=mc_files(reqs))
         chk.add_tlc(res, 'exhaustive:' + name)
         if not res.ok:
             raise Machinery('design model Raptor violates %s in scenario %s (intended design '
                             'must hold):\n%s' % (res.violated, name, res.trace[:3000]))
-    for name, scen in (MPI_SCENARIOS[:1] if quick else MPI_SCENARIOS + [MPI_SIG]):
+    for name, scen in ([MPI_LIGHT, MPI_REFUSE] if quick
+                       else MPI_SCENARIOS + [MPI_SIG, MPI_REFUSE, MPI_SEND]):
         res = tlc.run('Raptor', 'MCM', 'MCM.cfg', workers=8, timeout=900,
                       extra_files=mpi_files(scen))
         chk.add_tlc(res, 'exhaustive:mpi:' + name)
@@ -342,8 +368,10 @@ def run(chk, tier, seed):
     if not quick:
         expect = [(['DevNoDeallocOnSpawnFail'], SCENARIOS[0][1], ('InvOccMatches', 'InvAllBack')),
                   (['DevAllocIgnoresBusy'], SCENARIOS[0][1], ('InvNoShare',)),
-                  (['DevPutOutsideLock', 'DevDupKillsWatcher'], SCENARIOS[0][1], ('deadlock',)),
-                  (['DevTargetIgnoresMissing'], SCENARIOS[0][1], ('InvTarget',)),
+                  (['DevPutOutsideLock', 'DevDupKillsWatcher'], SCENARIOS[0][1],
+                   ('deadlock', 'InvTruth')),
+                  (['DevNoSynthWithoutTimeout'], SCENARIOS[2][1], ('deadlock',)),
+                  (['DevTargetIgnoresMissing'], SCENARIOS[0][1], ('InvTarget', 'InvTruth')),
                   (['DevNoSeen'], SCENARIOS[0][1], ('InvRouting',)),
                   (['DevEnvLeak'], SCENARIOS[1][1], ('InvRestored',))]
         for devs, reqs, invs in expect:
@@ -358,7 +386,9 @@ def run(chk, tier, seed):
         mexpect = [('DevAggMin', MPI_SCENARIOS[0][1], ('InvAgg', 'InvTarget')),
                    ('DevAggSignedMax', MPI_SIG[1], ('InvAgg', 'InvTarget')),
                    ('DevAllocBusy', MPI_SCENARIOS[0][1], ('InvNoShare',)),
-                   ('DevNoDealloc', MPI_SCENARIOS[0][1], ('InvOccMatches', 'InvAllBack'))]
+                   ('DevNoDealloc', MPI_SCENARIOS[0][1], ('InvOccMatches', 'InvAllBack')),
+                   ('DevNoDeallocOnSendFail', MPI_SEND[1], ('InvOccMatches', 'InvAllBack', 'deadlock')),
+                   ('DevMissingIsDone', MPI_REFUSE[1], ('InvTarget',))]
         for dev, scen, invs in mexpect:
             res = tlc.run('Raptor', 'MCM', 'MCM.cfg', workers=8, timeout=900,
                           extra_files=mpi_files(scen, devs=[dev]))
@@ -375,7 +405,7 @@ def run(chk, tier, seed):
         inputs.append(inp)
 
     # ---- 3. TLC behaviours -> schedules for the real classes -------------------------
-    nsim = 25 if quick else 250
+    nsim = 25 if quick else 200
     plan = [('base', n, r) for n, r in
             ([SCENARIOS[0], rng.choice(SCENARIOS[1:])] if quick else SCENARIOS)]
     for i in range(0 if quick else 6):
@@ -396,7 +426,8 @@ def run(chk, tier, seed):
                      'info': info, 'script': ss})
         finally:
             shutil.rmtree(dump, ignore_errors=True)
-    for name, scen in ([MPI_SCENARIOS[1]] if quick else MPI_SCENARIOS * 2 + [MPI_SIG] * 2):
+    for name, scen in ([rng.choice([MPI_SCENARIOS[1], MPI_REFUSE])] if quick
+                       else MPI_SCENARIOS * 2 + [MPI_SIG] * 2 + [MPI_REFUSE, MPI_SEND]):
         dump = tlc.scratch('rpsim_')
         try:
             res = tlc.run('Raptor', 'MCM', 'MCM.cfg', workers=1, timeout=300,
@@ -406,7 +437,9 @@ def run(chk, tier, seed):
             for f in sorted(glob.glob(os.path.join(dump, 'tr_*'))):
                 reqs, script = mpi_from_behaviour(f, scen)
                 sig = any('sig' in r['rk'] for r in reqs.values())
-                add({'family': 'mpi-sig' if sig else 'mpi', 'kind': 'mpi-script',
+                snd = any(r['pf'] >= 0 for r in reqs.values())
+                add({'family': 'mpi-sendfail' if snd else 'mpi-sig' if sig else 'mpi',
+                     'kind': 'mpi-script',
                      'scenario': name, 'reqs': reqs, 'script': script})
         finally:
             shutil.rmtree(dump, ignore_errors=True)
@@ -423,21 +456,56 @@ def run(chk, tier, seed):
              'reqs': {'r1': R.mpi_req(2, 'shell', ['ok', 'sig'])},
              'script': [('submit', 'r1'), ('T',), ('K', 0), ('K', 1),
                         ('U', 'r1', order[0]), ('U', 'r1', order[1]), ('result', 'r1')]})
-    for i in range(150 if quick else 3000):
+    # a payload which takes its process down without reporting - without a timeout
+    # (the default) and with one; a later request needs the cores it held
+    for tmo in (0, 1):
+        for mode in R.PY_MODES:
+            add({'family': 'base', 'kind': 'script', 'scenario': 'fixed-die',
+                 'reqs': {'r1': Q(3, 2, mode, 'die', tmo=tmo), 'r2': Q(2, 1, 'eval', 'ret')},
+                 'script': [('dispatch', 'r1'), ('dispatch', 'r2'), ('take', 'r1'), ('take', 'r2'),
+                            ('finish', 'r1', 'nat')]})
+    # what a worker may send back x what the master makes of it: exit code not
+    # set / absent / 0 / positive / negative, with and without an exception
+    combos = [(ec, exc, ab) for ec in ('none', 0, 1, 3, -9) for exc in (False, True)
+              for ab in ((False, True) if ec == 'none' else (False,))]
+    reqs = {'r%d' % (i + 1): Q(1, 0, rng.choice(R.PY_MODES + R.PROC_MODES), 'ret')
+            for i in range(len(combos))}
+    script = []
+    for i, (ec, exc, ab) in enumerate(combos):
+        script += [('dispatch', 'r%d' % (i + 1)), ('inject', 'r%d' % (i + 1), ec, exc, ab)]
+    add({'family': 'base', 'kind': 'script', 'scenario': 'fixed-master', 'reqs': reqs,
+         'script': script})
+    # the process of a request cannot be started (all modes)
+    for mode in R.PY_MODES + R.PROC_MODES:
+        add({'family': 'base', 'kind': 'script', 'scenario': 'fixed-nofork',
+             'reqs': {'r1': Q(2, 1, mode, 'ret', sf=1), 'r2': Q(3, 2, 'func', 'ret')},
+             'script': [('dispatch', 'r1'), ('dispatch', 'r2'), ('take', 'r1'), ('take', 'r2')]})
+    # MPI worker: more ranks asked for than there are; a send which fails
+    add({'family': 'mpi', 'kind': 'mpi-script', 'scenario': 'fixed-refuse',
+         'reqs': {'r1': R.mpi_req(NRANKS + 1, 'func'), 'r2': R.mpi_req(NRANKS, 'eval')},
+         'script': [('submit', 'r1'), ('submit', 'r2')]})
+    for pf in (0, 1):
+        add({'family': 'mpi-sendfail', 'kind': 'mpi-script', 'scenario': 'fixed-sendfail',
+             'reqs': {'r1': R.mpi_req(2, 'func', pf=pf), 'r2': R.mpi_req(NRANKS, 'eval')},
+             'script': [('submit', 'r1'), ('submit', 'r2')]})
+    for i in range(150 if quick else 2000):
         add({'family': 'base', 'kind': 'random', 'seed': rng.randrange(10 ** 9),
              'reqs': random_reqs(rng, rng.randint(2, 6), 'base')})
-    for i in range(80 if quick else 1500):
+    for i in range(80 if quick else 1000):
         add({'family': 'sched', 'kind': 'sched-random', 'seed': rng.randrange(10 ** 9),
              'info': random_sched(rng), 'p_env': rng.choice([0.2, 0.35, 0.5])})
-    for i in range(60 if quick else 1200):
+    for i in range(60 if quick else 800):
         add({'family': 'mpi', 'kind': 'mpi-random', 'seed': rng.randrange(10 ** 9),
              'reqs': random_mpi(rng, False)})
     for i in range(10 if quick else 200):
         add({'family': 'mpi-sig', 'kind': 'mpi-random', 'seed': rng.randrange(10 ** 9),
              'reqs': random_mpi(rng, True)})
+    for i in range(10 if quick else 200):
+        add({'family': 'mpi-sendfail', 'kind': 'mpi-random', 'seed': rng.randrange(10 ** 9),
+             'reqs': random_mpi(rng, False, sendfail=True)})
 
     # ---- 6. the dispatcher catalogue: every kind in every mode, singly and in pairs
-    cat = catalogue()
+    cat = [c for c in catalogue() if c[1] != 'die']
     for c in cat:
         add({'family': 'base', 'kind': 'chain', 'calls': [c]})
     pairs = [(a, b) for a in cat for b in cat]
